@@ -176,8 +176,13 @@ def judge(prop, tier, seed, rep, extra_cov=None):
         print("VIOLATION property=%s replay=%s site=%s cases=%d first_input=%s expected=%s got=%s" %
               (prop, rp, site, cnt, v0.get("input"), v0.get("expected"), v0.get("got")))
     if rep.get("empty_classes") and rep.get("exhaustive") and not rep.get("partial_ok"):
-        log("HARNESS-ERROR: vacuous outcome classes:", rep["empty_classes"])
-        status = 2
+        if nviol:
+            # an outcome class may be empty BECAUSE the library deviates (e.g. a class counted on a library result that is
+            # now wrong): the violations stand and are what is reported; vacuity only fails a run that is otherwise clean
+            log("note: outcome classes left empty in a run with violations:", rep["empty_classes"])
+        else:
+            log("HARNESS-ERROR: vacuous outcome classes:", rep["empty_classes"])
+            status = 2
     ev = write_evidence(prop, tier, seed, rep, extra_cov, nviol)
     log("evidence ->", ev, "| exhaustive:", rep.get("exhaustive"), "| wall %.1fs" % rep.get("wall_s", 0))
     return status
